@@ -984,6 +984,7 @@ func main() {
 	zzverifrt.Clock = simrt.ClockNow
 	zzverifrt.ClockAdvance = simrt.ClockJump
 	simrt.TimerHook = zzverifrt.FireTimers
+	simrt.RealTimersHook = func() bool { return zzverifrt.RealTimers }
 	progressOpen(*progressFile)
 
 	if pf := os.Getenv("VERIF_PROF"); pf != "" {
